@@ -547,6 +547,25 @@ def k_ref_last_saved_bad(f, rng):
     return e
 
 
+@kind("trigger-ambiguous-reference", 3)
+def k_trigger_ambiguous(f, rng):
+    """A trigger cell naming a question that exists more than once: refused like any ambiguous reference, for value and for location actions alike."""
+    dn = fresh(f, "trdup")
+    for k in range(pick(rng, [2, 2, 3])):
+        g = Row("group", "begin group", fresh(f, f"gtr{k}_"), {"label": "G"}, [Row("q", "text", dn, {"label": "L"})])
+        add_row_somewhere(f, rng, g)
+    how = pick(rng, ["calculate", "background-geopoint", "text"])
+    cells = {"trigger": "${%s}" % dn}
+    if how != "background-geopoint":
+        cells["calculation"] = "1 + 1"
+    if how == "text":
+        cells["label"] = "T"
+    f.survey.append(Row("q", how, fresh(f, "trtarget"), cells))
+    e = Exp(r"There are multiple survey elements with this name|multiple survey elements named", "name", name=dn)
+    e.column = f"trigger/{how}"
+    return e
+
+
 MALFORMED = ["${a", "${ a}", "${a }", "${a b}", "${a${b}}", "${}", "${a} + ${", "${a} and ${b", "${a.}}", "${1a}", "$ {a}x${", "${a}${", "${${a}}"]
 
 
